@@ -393,6 +393,10 @@ MUTANTS.extend(_R4_W3)
 from mutants_r5_w3 import E as _R5_W3  # noqa: E402
 
 MUTANTS.extend(_R5_W3)
+# round 6 (worker W3): filter_clashing_atoms by value, falsy-but-valid values, effects of log arguments, helper-built dictionaries / tables
+from mutants_r6_w3 import E as _R6_W3  # noqa: E402
+
+MUTANTS.extend(_R6_W3)
 # round 4 (worker W1): classes added to the evaluated rules of C01, C02, C12, C13, C16
 from mutants_r4_w1 import E as _R4_W1  # noqa: E402
 
